@@ -58,6 +58,17 @@ CLAIMED = {
             "trusted: TLC, the recording resolver wrapper of the harness; error kinds compared as value-vs-error; symlink and "
             "d/../ spellings only in the importing directory",
             "DESIGN.md §4 C07"),
+    "C02": ("TLA+ spec Objects (declarative object model + implementation-shaped single-pass lookups) model-checked by "
+            "TLC (refinement, consistency); every enumerated chain replayed on the implementation through source-level "
+            "and Rust-API probes",
+            "TLC enumerates all chains of <=3 layers over five member-kind families (visibility, +:, self/super/$/local/in-super "
+            "references, removed keys incl. re-adding and double removal, assertions) and checks that the skip-counter/add-stack "
+            "algorithms refine the declarative semantics for lookups from the top and from every layer; each chain is rendered "
+            "as Jsonnet in both spellings and every query kind (reads, has/hasAll/in, fields, manifest, equality, repeated "
+            "reads, super reads, in-super, ObjValue::get) must equal the model's observation",
+            "trusted: TLC, the transcription of the Jsonnet object semantics in part 1 of Objects.tla; member values are numbers, "
+            "names {a,b}; quick tier replays a seeded sample of the enumerated chains (thorough replays all)",
+            "DESIGN.md §4 C02"),
 }
 
 NOT_YET = "specification module and binding not built yet in this round; see DESIGN.md §4 for the planned model"
